@@ -925,7 +925,7 @@ theorem readCharLiteral_char (pre post : List Byte) (c : BitVec 32) (hc : c.toNa
     have := drop_add _ (pre.length + 1) (utf8Len c.toNat) _ _ hd hl
     exact byteAt_of_drop _ _ _ post this
   unfold readCharLiteral
-  simp only [hbyte, hb0, hb92, if_false, decodeAt_encoded _ _ c _ (by omega) hd, bind, Except.bind, pure, Except.pure]
+  simp only [hbyte, hb0, hb92, if_false, false_and, decodeAt_encoded _ _ c _ (by omega) hd, bind, Except.bind, pure, Except.pure]
   rw [findQuote_here _ _ _ (by simp; omega) hq]
 
 /-- `tok->val` after the per-prefix post-processing, for values in the range of the constant's type -/
